@@ -9,7 +9,7 @@ OUT=/verif/seeded/${PID}_${OUTK:-$K}
 mkdir -p $OUT
 [ -f $SD/change_$K.diff ] && { cp $SD/change_$K.diff $OUT/patch.diff; cp $SD/demo_$K.py $OUT/demo.py; cp $SD/meta_$K.json $OUT/meta_agent.json; }
 SCR=/tmp/seeded_repo_${PID}_${OUTK:-$K}
-rm -rf $SCR; mkdir -p $SCR; rsync -a --exclude .git --exclude '*.egg-info' /repo/ $SCR/
+rm -rf $SCR; mkdir -p $SCR; git -C /repo archive HEAD | tar -x -C $SCR    # HEAD, not the working tree (which an acceptance run may be patching)
 echo "== demo on unchanged tree"; (cd $SCR && PYTHONPATH=$SCR/src timeout 900 /venv/bin/python $OUT/demo.py > $OUT/demo_unchanged.log 2>&1); U=$?; echo "exit $U"
 (cd $SCR && patch -p1 -s < $OUT/patch.diff) || { echo "PATCH DOES NOT APPLY"; rm -rf $SCR; exit 1; }
 echo "== demo on changed tree"; (cd $SCR && PYTHONPATH=$SCR/src timeout 900 /venv/bin/python $OUT/demo.py > $OUT/demo_changed.log 2>&1); C=$?; echo "exit $C"; tail -1 $OUT/demo_changed.log | cut -c1-200
